@@ -19,7 +19,7 @@ def gen_case(rng, tier):
         fam = str(rng.choice(['quant', 'clip', 'plateau', 'zeroed']))     # ties inside one window
     elif r < 0.35:
         fam = 'tail'                                                     # half-wave straddling the pad
-    sig, kind = gen.gen_signal(rng, fs, lo, hi, rng.uniform(0.6, 6.0), fam)
+    sig, kind = gen.gen_signal(rng, fs, lo, hi, gen.duration(rng, lo, (0.6, 6.0)), fam)
     if rng.random() < 0.3:
         sig = -sig
     fk = None
